@@ -44,6 +44,7 @@ func load(repo string) {
 			fmt.Fprintln(os.Stderr, "parse error:", err)
 			os.Exit(2)
 		}
+		normalizeFile(f)
 		files[filepath.Base(m)] = f
 	}
 }
@@ -480,11 +481,29 @@ func sizeFacts(body *ast.BlockStmt, recv, frag string) (base uint64, per []uint6
 // codec.code.go
 
 // thresholds of an if / else-if chain comparing `subject > K`.
+// chainThresholds reads the constants of an `if S > A … else if S > B …` chain. The subject S may be
+// named by the chain's own init statement (`if b := data[offset]; b > 127 … else if b > 0`): the
+// alias stands for the expression it was given.
 func chainThresholds(ifs *ast.IfStmt, subject func(ast.Expr) bool) []uint64 {
 	var ths []uint64
+	alias := map[string]ast.Expr{}
 	for ifs != nil {
+		if as, ok := ifs.Init.(*ast.AssignStmt); ok && as.Tok == token.DEFINE && len(as.Lhs) == 1 && len(as.Rhs) == 1 {
+			if id, ok := as.Lhs[0].(*ast.Ident); ok {
+				alias[id.Name] = as.Rhs[0]
+			}
+		}
 		be, ok := ifs.Cond.(*ast.BinaryExpr)
-		if !ok || be.Op != token.GTR || !subject(be.X) {
+		if !ok || be.Op != token.GTR {
+			return nil
+		}
+		x := be.X
+		if id, ok := x.(*ast.Ident); ok {
+			if a, ok := alias[id.Name]; ok {
+				x = a
+			}
+		}
+		if !subject(x) {
 			return nil
 		}
 		v, ok := constNat(be.Y)
@@ -496,6 +515,80 @@ func chainThresholds(ifs *ast.IfStmt, subject func(ast.Expr) bool) []uint64 {
 		ifs = next
 	}
 	return ths
+}
+
+// asIfChain rewrites a tagless `switch { case c1: … case c2: … default: … }` (whose cases have one
+// condition each and no fallthrough) into the equivalent if / else-if chain, so that every pattern
+// written for if-chains also reads the switch form. Other statements are returned unchanged.
+func asIfChain(st ast.Stmt) ast.Stmt {
+	sw, ok := st.(*ast.SwitchStmt)
+	if !ok || sw.Tag != nil {
+		return st
+	}
+	var head, tail *ast.IfStmt
+	var deflt *ast.BlockStmt
+	for _, c := range sw.Body.List {
+		cc, ok := c.(*ast.CaseClause)
+		if !ok {
+			return st
+		}
+		for _, b := range cc.Body {
+			if br, ok := b.(*ast.BranchStmt); ok && br.Tok == token.FALLTHROUGH {
+				return st
+			}
+		}
+		body := &ast.BlockStmt{Lbrace: cc.Colon, List: cc.Body, Rbrace: cc.End()}
+		if cc.List == nil {
+			deflt = body
+			continue
+		}
+		if len(cc.List) != 1 || deflt != nil {
+			return st
+		}
+		is := &ast.IfStmt{If: cc.Case, Cond: cc.List[0], Body: body}
+		if head == nil {
+			head, tail = is, is
+			is.Init = sw.Init
+		} else {
+			tail.Else = is
+			tail = is
+		}
+	}
+	if head == nil {
+		return st
+	}
+	if deflt != nil {
+		tail.Else = deflt
+	}
+	return head
+}
+
+// normalizeFile rewrites every tagless switch of a file (function bodies and function literals
+// alike) into an if-chain, in place.
+func normalizeFile(f *ast.File) {
+	ast.Inspect(f, func(n ast.Node) bool {
+		switch x := n.(type) {
+		case *ast.BlockStmt:
+			for i := range x.List {
+				x.List[i] = asIfChain(x.List[i])
+			}
+		case *ast.CaseClause:
+			for i := range x.Body {
+				x.Body[i] = asIfChain(x.Body[i])
+			}
+		case *ast.CommClause:
+			for i := range x.Body {
+				x.Body[i] = asIfChain(x.Body[i])
+			}
+		case *ast.IfStmt:
+			if x.Else != nil {
+				x.Else = asIfChain(x.Else)
+			}
+		case *ast.LabeledStmt:
+			x.Stmt = asIfChain(x.Stmt)
+		}
+		return true
+	})
 }
 
 func codeFacts(typ, recv, prefix string, fields []string, out *[]kv) {
@@ -747,12 +840,21 @@ func writeIfChanged(path, content string) {
 }
 
 func main() {
+	if len(os.Args) == 4 && os.Args[1] == "-write-baseline" {
+		// extract -write-baseline <repo> <file>: record the local variable names of every function
+		// of the pinned tree (used to undo mere renames, see normalize.go)
+		load(os.Args[2])
+		writeBaseline(os.Args[3])
+		return
+	}
 	if len(os.Args) != 3 {
 		fmt.Fprintln(os.Stderr, "usage: extract <repo> <outdir>")
 		os.Exit(2)
 	}
 	repo, outdir := os.Args[1], os.Args[2]
 	load(repo)
+	restoreNames()
+	inlineExtractedHelpers()
 	loadConsts()
 	outs := map[string]string{
 		"Upgrade.lean":   upgradeLean(),
